@@ -342,6 +342,16 @@ theorem spec_step_length (σ : Store) (st : Stmt) : (Store.step σ st).1.length 
         · split <;> simp
       · rfl
     · rfl
+  | update y x i a =>
+    simp only [Store.step]
+    split
+    · split <;> simp
+    · rfl
+  | callAppend y x a =>
+    simp only [Store.step]
+    split
+    · split <;> simp
+    · rfl
 
 theorem step_cells_length {s : State} {σ : Store} (R : Refines s σ) (st : Stmt) :
     (step s st).1.cells.length = s.cells.length := by
